@@ -730,6 +730,10 @@ def fdepsd(
         Dt4 *= 4  # 2 ** (b/2)
         Dt8 *= 16
         Dt12 *= 64
+        # ... and the variances to match (sig2_* are 2 * variance):
+        sig2_4 = sig2_4 / 2
+        sig2_8 = sig2_8 / 2
+        sig2_12 = sig2_12 / 2
 
     # assemble outputs:
     columns = ["G1", "G2", "G4", "G8", "G12"]
